@@ -15,7 +15,9 @@ package main
 // plus 1 MiB.
 import (
 	"bytes"
+
 	"fmt"
+	smbutils "github.com/TheManticoreProject/Manticore/network/smb/smb_v10/message/commands/utils"
 	"sort"
 	"strings"
 	"time"
@@ -40,6 +42,7 @@ var c07Decoders = map[string]int{
 	"v2.unmarshal": 0, "v2.from_bytes": 0, "v2.from_string": 0, "v8.unmarshal": 0, "v8.from_bytes": 0, "v8.from_string": 0,
 	"guid.from_raw": 0, "guid.from_string": 0, "guid.from_n": 0, "guid.from_d": 0, "guid.from_b": 0, "guid.from_p": 0, "guid.from_x": 0,
 	"hashes.parse": 0, "ipv4.parse": 0, "ipv6.parse": 0, "ports.parse": 0, "filetime.unmarshal": 0,
+	"smbutils.nt_unicode": 0, "smbutils.nt_string": 0,
 }
 
 // properties whose generators are harvested
@@ -52,6 +55,15 @@ type c07Seed struct {
 }
 
 func init() {
+	// commands/utils/utils.go (no property of its own)
+	Impl("smbutils.nt_unicode", func(a []Val) Val {
+		s, n := smbutils.GetNullTerminatedUnicodeString(exact(a[0].B))
+		return L(S(s), I(int64(n)))
+	})
+	Impl("smbutils.nt_string", func(a []Val) Val {
+		s, n := smbutils.GetNullTerminatedString(exact(a[0].B))
+		return L(S(s), I(int64(n)))
+	})
 	// args: entry point name, then the entry point's own arguments
 	Oracle("c07.total", func(a []Val) (string, string) {
 		fn := a[0].Str()
@@ -300,6 +312,28 @@ func genC07(c *Ctx) {
 		run(fn, proto, idx, nil)
 		for k := 0; k < c.N(20, 200); k++ {
 			run(fn, proto, idx, r.Bytes(r.Intn(48)))
+		}
+	}
+	// the null-terminated string helpers: every string over a small alphabet up to 7 bytes (terminated, unterminated,
+	// odd lengths, zero bytes at odd and even positions), then random ones
+	{
+		alpha := []byte{0, 1, 'A'}
+		var rec func(b []byte)
+		rec = func(b []byte) {
+			run("smbutils.nt_unicode", []Val{B(nil)}, 0, b)
+			run("smbutils.nt_string", []Val{B(nil)}, 0, b)
+			if len(b) == c.N(6, 8) {
+				return
+			}
+			for _, x := range alpha {
+				rec(append(append([]byte{}, b...), x))
+			}
+		}
+		rec(nil)
+		for k := 0; k < c.N(300, 5000); k++ {
+			b := []byte(r.StringOver("\x00\x00ab\xff", r.Intn(40)))
+			run("smbutils.nt_unicode", []Val{B(nil)}, 0, b)
+			run("smbutils.nt_string", []Val{B(nil)}, 0, b)
 		}
 	}
 	// inputs longer than 64 KiB for the decoders that walk a list (cursors and bounds kept in 16 bits wrap there)
